@@ -323,6 +323,11 @@ class Exec:
                     # store to a class / module attribute: shared state
                     p2.effects.append(("store-global", base.q + "." + tgt.attr, v, tgt.lineno))
                     return k(p2)
+                if z3.is_expr(base) and base.sort() == Val:
+                    # a store into an opaque object (an attribute of self, a module-level object, ...): state that outlives
+                    # the call and that is not one of the instance attributes a frame clause can name -- a foreign store
+                    p2.effects.append(("store-attr", -1, tgt.attr, v, "opaque:" + str(base)[:80]))
+                    return k(p2)
                 if not isinstance(base, PyObj):
                     raise OutOfSubset("attribute store on non-object line %d" % tgt.lineno)
                 p2.heap[base.oid]["attrs"][tgt.attr] = v
